@@ -83,19 +83,20 @@ CLAIMS = {
          "Coq proof of the kernel algorithms + kernel-level correspondence of every flavour"),
  "C06": ("Coq theorems (Props/C06.v) about a model of c/blake3.c (Model/CHasher.v: chunk state, fixed 55-slot in-place "
          "CV stack with popcnt merging, compress_subtree_wide / to_parent_node, update_base, output_root_bytes, finalize_seek, "
-         "reset, the four initialisers): the C integer formulas (round_down_to_power_of_2, left_subtree_len, popcnt, out_len & -64, "
-         "the shrink condition) are TRANSLATED from the C source and proved equal to the Rust/spec formulas on all of their "
-         "domains; output_root_bytes = spec stream S[seek..seek+n] for every seek/out_len; reset = init of the same mode and key for "
-         "every reachable state; the two derive-key initialisers agree; zero-length calls are no-ops; finalize is pure; the C wide "
-         "recursion = the Rust one (so C01's theorem carries over); merge/push of the in-place stack keep every index in bounds and "
-         "compute the spec subtrees; the main update loop refines 'subtrees of everything absorbed'.  Correspondence: the real C "
-         "library (assembly and intrinsics builds, all five feature masks through g_cpu_features) against the extracted C model and "
-         "against the Rust crate on histories of update/finalize/finalize_seek/reset/clone, all four initialisers, seeks up to 2^64-1-n.",
-         "Partial: the end-to-end theorems c_one_shot_spec (proved only for messages of at most one chunk) and c_update_refines "
-         "(proved for the main update loop from chunk-aligned states, not for the 'finish the partial chunk' prefix and the final "
-         "fold) are not closed; their full statements are kept in Props/C06.v. For longer messages and arbitrary histories the C "
-         "library is tied to the (proved) Rust model and the spec by correspondence only.",
-         "Coq proof of the C hasher model (partial) + differential run of the real C library in 2 builds x 5 feature masks"),
+         "reset, the four initialisers): C06_update_refines - for EVERY sequence of blake3_hasher_update calls whose inputs "
+         "concatenate to m (< 2^64 bytes), every initialiser/key/flags, every seek and out_len with seek+out_len <= 2^64-1, "
+         "finalize_seek writes exactly the spec stream S[seek..seek+out_len] of m (instances for init / init_keyed / "
+         "init_derive_key_raw = b3_xof_mode of the three modes); C06_one_shot_spec; finalize is a query and updates continue after it; "
+         "reset = init of the same mode and key for every reachable state and the next message hashes as from fresh; the two derive-key "
+         "initialisers agree; zero-length calls are no-ops; the C integer formulas (round_down_to_power_of_2, left_subtree_len, popcnt, "
+         "out_len & -64, shrink condition) are TRANSLATED from the C source and proved equal to the Rust/spec formulas on all of "
+         "their domains; the C wide recursion = the Rust one; every index of the in-place stack is in bounds.  Correspondence: the "
+         "real C library (assembly and intrinsics builds, all five feature masks through g_cpu_features) against the extracted C "
+         "model and against the Rust crate on histories of update/finalize/finalize_seek/reset/clone, all four initialisers, seeks "
+         "up to 2^64-1-n.",
+         "The kernels behind the dispatcher are the platform record (PlatformOK, tied by C05 and by the five feature masks run "
+         "here); blake3_hasher_init_derive_key (NUL-terminated string) is modelled as strlen + the raw initialiser; the TBB path is C08.",
+         "Coq proof of the C hasher model (full refinement) + differential run of the real C library in 2 builds x 5 feature masks"),
  "C04": ("Coq theorems (Props/C04.v): every observation of the one-shot functions, of call histories, of extended-output "
          "operation sequences and of subtree chaining values is equal for any two platform records satisfying PlatformOK "
          "(corollaries of C01/C02/C03/C09), and PlatformOK holds for the modelled SSE2/SSE4.1/AVX2/AVX-512 kernels (C05) and "
